@@ -55,14 +55,15 @@ func scenarioRevokeExpired(ctx *RunCtx) {
 // token formats and both storage flavours.  Deterministic, so that every (state, acceptor) pair is
 // exercised on every run; the random histories of the suite add the interleavings.
 func scenarioAcceptorMatrix(ctx *RunCtx) {
-	states := []string{"live", "lifetime-elapsed", "revoked", "refresh-token-revoked", "superseded", "superseded-rotation", "grant-expired", "code-replayed"}
+	states := []string{"live", "lifetime-elapsed", "revoked", "refresh-token-revoked", "superseded", "superseded-rotation", "grant-expired", "code-replayed",
+		"refreshed-then-code-replayed", "refreshed-rotation-then-code-replayed"}
 	for _, fl := range []string{"copy", "alias"} {
 		for _, client := range []int{1, 2} { // c1: opaque tokens, c2: JWT
 			for _, st := range states {
 				opts := []Opt{{Name: "WithScopes", Scopes: serverScopes}, {Name: "WithAuthorizationCodeGrant"},
 					{Name: "WithRefreshTokenGrant", Z: 1000}, {Name: "WithTokenRevocation"}, {Name: "WithTokenIntrospection"},
 					{Name: "WithTokenLifetime", Z: 40}}
-				if st == "superseded-rotation" {
+				if st == "superseded-rotation" || st == "refreshed-rotation-then-code-replayed" {
 					opts = append(opts, Opt{Name: "WithRefreshTokenRotation"})
 				}
 				spec := WorldSpec{Profile: "openid", Flavour: fl, Static: baseClients(ctx.R), Opts: opts}
@@ -89,7 +90,7 @@ func scenarioAcceptorMatrix(ctx *RunCtx) {
 						g.do(Op{Kind: "Introspect", Cred: cred, Tok: PTok{Kind: "PJti", H: h}, Allowed: true})
 					}
 				}
-				newAt := Handle(0)
+				newAt, newRt := Handle(0), Handle(0)
 				switch st {
 				case "lifetime-elapsed":
 					g.doTick(45)
@@ -106,6 +107,23 @@ func scenarioAcceptorMatrix(ctx *RunCtx) {
 					g.doTick(1005)
 				case "code-replayed":
 					g.do(Op{Kind: "Token", Grant: "authorization_code", Cred: cred, Code: nav.NCode, Redirect: redirect, HG: "HgOk", BA: "BaApprove"})
+				case "refreshed-then-code-replayed", "refreshed-rotation-then-code-replayed":
+					// the grant was rewritten by refreshes before the code is presented again: the replay
+					// must still find it and kill the CURRENT tokens
+					g.doTick(12)
+					for i := 0; i < 2; i++ {
+						rt := tok.Rt
+						if newRt != 0 {
+							rt = newRt
+						}
+						if o := g.do(Op{Kind: "Token", Grant: "refresh_token", Cred: cred, Refresh: rt, HG: "HgOk", BA: "BaApprove"}); o.Kind == "Tokens" {
+							newAt = o.At
+							if o.Rt != 0 {
+								newRt = o.Rt
+							}
+						}
+					}
+					g.do(Op{Kind: "Token", Grant: "authorization_code", Cred: cred, Code: nav.NCode, Redirect: redirect, HG: "HgOk", BA: "BaApprove"})
 				}
 				present(tok.At)
 				if newAt != 0 {
@@ -114,6 +132,9 @@ func scenarioAcceptorMatrix(ctx *RunCtx) {
 				// the refresh token where an access token belongs, and what the grant still yields
 				g.do(Op{Kind: "UserInfo", Tok: PTok{Kind: "PExact", H: tok.Rt}, HasHeader: true})
 				g.do(Op{Kind: "Token", Grant: "refresh_token", Cred: cred, Refresh: tok.Rt, HG: "HgOk", BA: "BaApprove"})
+				if newRt != 0 {
+					g.do(Op{Kind: "Token", Grant: "refresh_token", Cred: cred, Refresh: newRt, HG: "HgOk", BA: "BaApprove"})
+				}
 				ctx.AddCase(g.Case(fmt.Sprintf("scenario:acceptors/%s/c%d/%s", st, client, fl)))
 				ctx.AddStats(g.stats)
 			}
